@@ -119,6 +119,8 @@ type area struct {
 	eqs     map[string]string              // further types compared with == : Go type -> boolean equality
 	shadow  bool                           // `:=` in a nested scope may shadow a name that is never assigned with `=`
 	wderefs map[string]wderef              // pointers to a slice kept in the world: *p reads it, *p = append(*p, x) extends it
+	fatals  map[string]bool                // calls that end the process: the function stops with Panicked (PErrorf <format> 0)
+	wsets   map[string]string              // "<receiver type>.<field>.<field>": g.a.b = e -> (coq e w)
 	fresh   map[string]int                 // function -> index of a pointer argument that every caller in the package must
 	                                       // pass as a fresh composite literal &T{...} (precondition of the store discipline)
 }
@@ -1762,6 +1764,16 @@ func (t *translator) block(stmts []ast.Stmt, ev *env, lc *loopCtx, top bool, k f
 			}
 			return "(let " + arg.Name + " := " + cl.coq + " " + t.pure(c.Fun, ev, "") + " " + arg.Name + " in\n" + cont(ev) + ")"
 		}
+		if t.a.fatals[exprKey(c.Fun)] {
+			lit, isLit := ast.Expr(nil), false
+			if len(c.Args) > 0 {
+				lit, isLit = c.Args[0].(*ast.BasicLit)
+			}
+			if !isLit || lit.(*ast.BasicLit).Kind != token.STRING {
+				unsup(c, "%s whose format is not a string literal", exprKey(c.Fun))
+			}
+			return "(Panicked (PErrorf " + t.pure(lit, ev, "string") + " 0%nat), w)"
+		}
 		if name, sg := t.sigOf(c, ev); sg != nil && !sg.pure {
 			lhs := make([]string, len(sg.results))
 			for i := range lhs {
@@ -1932,6 +1944,9 @@ func (t *translator) assign(x *ast.AssignStmt, ev *env, cont func(*env) string) 
 	// r.f = e  on a record parameter
 	if x.Tok == token.ASSIGN && len(x.Lhs) == 1 && len(x.Rhs) == 1 {
 		if sel, ok := x.Lhs[0].(*ast.SelectorExpr); ok {
+			if pk := t.pathKey(sel, ev); pk != "" && t.a.wsets[pk] != "" {
+				return t.worldAssign(x, t.a.wsets[pk], t.typeOf(sel, ev), ev, cont)
+			}
 			id, isId := sel.X.(*ast.Ident)
 			if !isId {
 				unsup(x, "assignment to a field of something that is not a variable")
